@@ -4,6 +4,7 @@ import (
 	"bytes"
 	"encoding/json"
 	"fmt"
+	"math"
 	"math/rand"
 	"os"
 	"regexp"
@@ -395,6 +396,10 @@ func runC07(c *run.Ctx) {
 				g = cloneGraph(ec.G)
 				site := ls[r.Intn(len(ls))]
 				bad, _ := c06BadLeaf(site.typ)
+				if (site.typ == "Float" || site.typ == "Float64") && r.Intn(2) == 0 {
+					// values no JSON number can carry, as Go floats and spelled as strings
+					bad = []interface{}{"NaN", "Inf", "+Inf", "-infinity", math.NaN(), math.Inf(-1), float32(math.Inf(1))}[r.Intn(7)]
+				}
 				n2 := g.Nodes[site.node.ID]
 				n2.F[site.field] = setLeaf(n2.F[site.field], site.idx, bad)
 			}
